@@ -69,6 +69,8 @@ enum Slot {
 }
 
 struct Inner {
+    /// frames are kept for the oracles unless a scenario measures retained memory
+    record: bool,
     slots: Vec<Slot>,
     tids: Vec<String>,
     addrs: Vec<SocketAddr>,
@@ -97,7 +99,7 @@ impl SimNetwork {
     pub fn new(seed: u64, base_latency_ms: u64, jitter_ms: u64, faults: FaultPlan) -> Arc<Self> {
         Arc::new(SimNetwork {
             inner: Mutex::new(Inner {
-                slots: Vec::new(),
+                record: true, slots: Vec::new(),
                 tids: Vec::new(),
                 addrs: Vec::new(),
                 by_tid: HashMap::new(),
@@ -155,6 +157,10 @@ impl SimNetwork {
     }
     pub fn idx_of_addr(&self, a: &SocketAddr) -> Option<usize> {
         self.inner.lock().unwrap().by_addr.get(a).copied()
+    }
+    /// Stop (or resume) keeping frames; used while retained memory is measured.
+    pub fn set_recording(&self, on: bool) {
+        self.inner.lock().unwrap().record = on;
     }
     pub fn frames(&self) -> Vec<Frame> {
         self.inner.lock().unwrap().frames.clone()
@@ -231,7 +237,7 @@ impl SimNetwork {
             let seq = g.seq;
             g.seq += 1;
             let (protocol, dht, rr) = decode(&frame);
-            g.frames.push(Frame { seq, t_ms: now, from, to, protocol, dht, rr, len: frame.len(), fate: Fate::Delivered, deliver_ms: now + lat });
+            if g.record { g.frames.push(Frame { seq, t_ms: now, from, to, protocol, dht, rr, len: frame.len(), fate: Fate::Delivered, deliver_ms: now + lat }); }
             (lat, to)
         };
         tokio::spawn(async move {
@@ -376,7 +382,7 @@ impl SimNet for SimNetwork {
                 }
             }
             let lat = self.latency(&g, from_idx, to_idx, n) + extra;
-            g.frames.push(Frame { seq, t_ms: now, from: from_idx, to: to_idx, protocol, dht, rr, len: frame.len(), fate: fate.clone(), deliver_ms: now + lat });
+            if g.record { g.frames.push(Frame { seq, t_ms: now, from: from_idx, to: to_idx, protocol, dht, rr, len: frame.len(), fate: fate.clone(), deliver_ms: now + lat }); }
             (from_idx, to_idx, fate, lat, dup)
         };
         let (from_idx, to_idx, fate, lat, dup) = plan;
